@@ -428,3 +428,9 @@ PROPS["C05"]["gens"] = ["c05d", "c05r", "c05p"]
 # ---- shape of every successful encoding (Props/C02Shape.lean) ----
 PROPS["C02"]["lean"] = ["DM.Props.C02", "DM.Props.C02Shape"]
 PROPS["C02"]["explanation"] += " Theorem run_shape (DM/Props/C02Shape.lean): for every plan and prefix, a successful run of the encoder model returns a symbol that is a member of the supplied list - the first one large enough for the codewords the mode encoders wrote -, exactly that symbol's number of data codewords, and after the encoders' codewords exactly the standard's padding (UNLATCH if needed, 129, 253-state randomised pads)."
+
+# ---- C11: error classification (Lemmas/NoLE.lean, Props/C11.lean) ----
+PROPS["C11"]["lean"] = PROPS["C11"]["lean"] + ["DM.Props.C11"]
+PROPS["C11"]["explanation"] += " Theorem run_listEmpty_iff (DM/Props/C11.lean): the encoder model answers SymbolListEmpty if and only if the supplied list is empty - none of the ~25 functions below run (main loop, six mode encoders, end-of-data handlers) can produce that error (Lemmas/NoLE.lean); run_error_nonempty: every refusal on a non-empty list is something else."
+PROPS["C11"]["level_text"] = ("Partial proof: the planner never panics and always terminates (theorem over the planner model, all inputs); the error is SymbolListEmpty iff the list is empty (theorem over the encoder model);"
+    " macro slicing never panics (C16 macro_total); the mode encoders are covered by encoder-model correspondence including injected plans; the rest is exploration under catch_unwind.")
